@@ -88,10 +88,11 @@ COQTY = {
     "kind": "kind", "cls": "cls", "bool": "bool", "dtype": "dtype", "odtype": "option dtype",
     "pyv": "pyv", "vinfo": "vinfo", "lpyv": "list pyv", "Z": "Z", "slice": "pyslice",
     "name": "pyname", "tag": "option string", "string": "string",
-    "elem": "X", "lelem": "list X", "vecself": "list X",
+    "elem": "X", "lelem": "list X", "vecself": "list X", "ofp": "option Z",
+    "text": "T", "cell": "cellres T",
 }
-NARROW = {"pyv": "vinfo", "odtype": "dtype"}           # Optional types a `match` can narrow
-OPTIONAL = {"pyv", "odtype", "name", "tag"}
+NARROW = {"pyv": "vinfo", "odtype": "dtype", "ofp": "Z"}   # Optional types a `match` can narrow
+OPTIONAL = {"pyv", "odtype", "name", "tag", "ofp"}
 NONOPTIONAL_OBJ = {"vinfo", "dtype"}                   # `x is None` is statically False on these
 ELEM = {"lpyv": "pyv", "lelem": "elem"}
 
@@ -138,6 +139,11 @@ NAMES_KERNELS = [Kernel("_resolve_binary_name", "resolve_binary_name", ["name", 
 # Python's hash() are parameters (see GenPrelude.elinfo)
 FP_CTXP = ("(X : Type) (el_obs : X -> elinfo) (el_hash el_nested_fp el_untranslated : X -> Z)",
            "X el_obs el_hash el_nested_fp el_untranslated")
+# csv._infer_type: what a cell text becomes; str tests and int()/float() acceptance are parameters (GenPrelude.cellres)
+CSV_CTXP = ("(T : Type) (txt_empty : T -> bool) (txt_strip : T -> T) (int_ok float_ok : T -> bool)",
+            "T txt_empty txt_strip int_ok float_ok")
+CSV_KERNELS = [Kernel("_infer_type", "infer_type", ["text"], "cell", ctxp=CSV_CTXP)]
+CONVERTERS = {"int": ("int_ok", "CInt"), "float": ("float_ok", "CFloat")}
 FP_CONSTS = [("_FP_P", "fp_P"), ("_FP_B", "fp_B")]
 FP_KERNELS = [
     Kernel("_hash_element", "hash_element", ["elem"], "Z", cls="Vector", static=True, elem_forms=True, ctxp=FP_CTXP),
@@ -191,6 +197,10 @@ def coerce(ctx, node, text, have, want):
         return f"(Some {text})"
     if have == "dtype" and want == "odtype":
         return f"(Some {text})"
+    if have == "Z" and want == "ofp":
+        return f"(Some {text})"
+    if have == "text" and want == "cell":
+        return f"(CStr {text})"                       # `return value`: the text itself
     raise ctx.err(node, f"expression of type {have} where {want} is required")
 
 
@@ -239,6 +249,8 @@ def expr(ctx, env, node, want=None):
         if v is True or v is False:
             return ("true" if v else "false"), "bool"
         if v is None:
+            if want == "cell":
+                return "CNone", "cell"
             if want in OPTIONAL:
                 return "None", want
             raise ctx.err(node, f"None where type {want} is expected")
@@ -300,6 +312,8 @@ def expr(ctx, env, node, want=None):
         t, ty = expr(ctx, env, node.operand)
         if isinstance(node.op, ast.Not) and ty == "bool":
             return f"(negb {t})", "bool"
+        if isinstance(node.op, ast.Not) and ty == "text":
+            return f"(txt_empty {t})", "bool"                  # `not s` on a str: s == ''
         if isinstance(node.op, ast.USub) and ty == "Z":
             return f"(- {t})%Z", "Z"
         raise ctx.err(node, f"unary {type(node.op).__name__} on {ty}")
@@ -405,6 +419,8 @@ def call(ctx, env, node):
             a = typed_args(ctx, env, node, node.args, k.params)          # Vector._hash_element(x) / self._hash_element(x)
             return f"({k.coq} {k.ctxp[1]} {' '.join(a)})", k.ret
         o, to = expr(ctx, env, f.value)
+        if to == "text" and f.attr == "strip" and not node.args:
+            return f"(txt_strip {o})", "text"
         if to == "dtype":
             k = ctx.table.get(("DataType", f.attr))
             if k is not None and not k.prop and k.mode == "value":
@@ -455,6 +471,8 @@ def compare(ctx, env, node, left, op, right):
                 return ("true" if neg else "false"), "bool"
             raise ctx.err(node, f"None test on a {ty}")
         a, ta = expr(ctx, env, left)
+        if ta == "text" and not identity and isinstance(right, ast.Constant) and right.value == "":
+            return wrap(f"txt_empty {a}"), "bool"                  # s == ''
         b, tb = expr(ctx, env, right, "string" if ta == "string" else None)
         return wrap(equal(ctx, node, a, ta, b, tb, identity)), "bool"
     if isinstance(op, (ast.In, ast.NotIn)):
@@ -500,6 +518,17 @@ def is_try_issubclass(s):
             and h.body[0].value.value is False
             and isinstance(b, ast.Return) and isinstance(b.value, ast.Call)
             and isinstance(b.value.func, ast.Name) and b.value.func.id == "issubclass")
+
+
+def is_try_convert(s):
+    """`try: return int(<e>)  except ValueError: pass`  (also float)"""
+    if not isinstance(s, ast.Try) or s.orelse or s.finalbody or len(s.handlers) != 1 or len(s.body) != 1:
+        return False
+    h, b = s.handlers[0], s.body[0]
+    return (isinstance(h.type, ast.Name) and h.type.id == "ValueError" and h.name is None and len(h.body) == 1
+            and isinstance(h.body[0], ast.Pass)
+            and isinstance(b, ast.Return) and isinstance(b.value, ast.Call) and isinstance(b.value.func, ast.Name)
+            and b.value.func.id in CONVERTERS and len(b.value.args) == 1 and not b.value.keywords)
 
 
 def terminates(stmts):
@@ -665,6 +694,18 @@ def block(ctx, env, stmts, ind):
         ctx.note(s, "ASSUMPTION: `try: return issubclass(...) except TypeError: return False` translated as its "
                     "try-body (kind is always a class)")
         return block(ctx, env, s.body, ind)
+    if is_try_convert(s) and ctx.ret == "cell" and ctx.finish is None:
+        fn = s.body[0].value.func.id
+        if fn in env:
+            raise ctx.err(s, f"{fn} is a local name here")
+        t, ty = expr(ctx, env, s.body[0].value.args[0])
+        if ty != "text":
+            raise ctx.err(s, f"{fn}() of a {ty}")
+        ok, con = CONVERTERS[fn]
+        ctx.note(s, f"ASSUMPTION: `try: return {fn}(..) except ValueError: pass` — {fn}() of a str raises nothing but "
+                    f"ValueError; {ok} = it does not raise")
+        return (f"{p}if ({ok} {t}) (* L{s.lineno} try {fn}() *)\n{p}then\n{pad(ind + 1)}({con} {t}) (* L{s.body[0].lineno} *)\n"
+                f"{p}else\n" + block(ctx, env, rest, ind + 1))
     if isinstance(s, ast.Try):
         raise ctx.err(s, "try statement other than `try: return issubclass(..) except TypeError: return False`")
     if isinstance(s, (ast.Assign, ast.AnnAssign)):
@@ -816,6 +857,8 @@ def for_loop(ctx, env, s, rest, ind):
     ctx.finish = lambda e: tuple_text(ctx, s, e, carried, ctypes) + " (* next loop state *)"
     body = block(ctx, benv, s.body, 1)
     ctx.finish = None
+    # an outer name the body mentions only as the receiver of a static method / class constant emits nothing
+    extra = [n for n in extra if re.search(r"(?<![A-Za-z0-9_'])" + re.escape(env[n][0]) + r"(?![A-Za-z0-9_'])", body)]
     st_ty = tuple(ctypes) if len(ctypes) > 1 else ctypes[0]
     params = "".join(f" ({env[n][0]} : {coqty(env[n][1])})" for n in extra)
     cp, ca = ctx.kernel.ctxp
@@ -896,7 +939,7 @@ def check_module(file, tree, need_imports):
                 for x in ast.walk(t):
                     if isinstance(x, ast.Name):
                         bound.setdefault(x.id, []).append(("assign", n.lineno))
-    for nm in list(CLASSNAMES) + ["isinstance", "issubclass", "type", "max", "min", "TypeError"]:
+    for nm in list(CLASSNAMES) + ["isinstance", "issubclass", "type", "max", "min", "TypeError", "ValueError"]:
         got = bound.get(nm, [])
         if nm in ("date", "datetime"):
             if nm in need_imports and [g[0] for g in got] != [("datetime", nm)]:
@@ -1136,6 +1179,260 @@ IMPORTS_TYPING = ("From Coq Require Import List Bool Arith.\n"
                   "From Serif Require Import Base.PyVal Base.GenPrelude.\nImport ListNotations.\n")
 IMPORTS_SLICE = ("From Coq Require Import List Bool ZArith.\n"
                  "From Serif Require Import Base.PyVal Base.GenPrelude.\nLocal Open Scope Z_scope.\n")
+# ---- the memo protocol of fingerprint(): Vector.fingerprint and Table.fingerprint ---------------------------
+# The object is seen through its attribute `_fp` (Optional[int]) only; `self._compute_fingerprint_full()` is the
+# parameter fp_full (the fingerprint of the CURRENT contents).  The functions return (new self._fp, returned value).
+
+class _MemoRewrite(ast.NodeTransformer):
+    """self._fp -> the local self__fp;  self._compute_fingerprint_full() -> fp_full;
+    `if <test over self._fp_powers / len / self._underlying>: self._ensure_fp_powers()` -> dropped (noted);
+    super().fingerprint() -> vector_fingerprint(self__fp, fp_full);  return e -> return (self__fp, e)"""
+
+    def __init__(self, file, fname, notes, in_table):
+        self.file, self.fname, self.notes, self.in_table = file, fname, notes, in_table
+
+    def bad(self, node, what):
+        return TranslationError(self.file, getattr(node, "lineno", 0), f"{self.fname}: {what}")
+
+    def visit_Attribute(self, node):
+        if isinstance(node.value, ast.Name) and node.value.id == "self" and node.attr == "_fp":
+            return ast.copy_location(ast.Name(id="self__fp", ctx=node.ctx), node)
+        return self.generic_visit(node)
+
+    def visit_Call(self, node):
+        f = node.func
+        if (isinstance(f, ast.Attribute) and isinstance(f.value, ast.Name) and f.value.id == "self"
+                and f.attr == "_compute_fingerprint_full" and not node.args and not node.keywords):
+            return ast.copy_location(ast.Name(id="fp_full", ctx=ast.Load()), node)
+        if (self.in_table and isinstance(f, ast.Attribute) and f.attr == "fingerprint" and not node.args
+                and not node.keywords and ast.unparse(f.value) == "super()"):
+            if not getattr(self, "_in_return", False):
+                raise self.bad(node, "super().fingerprint() somewhere else than `return super().fingerprint()`")
+            return ast.copy_location(ast.Call(func=ast.Name(id="vector_fingerprint", ctx=ast.Load()),
+                                              args=[ast.Name(id="self__fp", ctx=ast.Load()),
+                                                    ast.Name(id="fp_full", ctx=ast.Load())], keywords=[]), node)
+        return self.generic_visit(node)
+
+    def visit_If(self, node):
+        if (not node.orelse and len(node.body) == 1 and isinstance(node.body[0], ast.Expr)
+                and ast.unparse(node.body[0].value) == "self._ensure_fp_powers()"):
+            for n in ast.walk(node.test):
+                ok = (isinstance(n, (ast.BoolOp, ast.And, ast.Or, ast.Compare, ast.Is, ast.IsNot, ast.Eq, ast.NotEq,
+                                     ast.Load, ast.Constant))
+                      or (isinstance(n, ast.Name) and n.id in ("self", "len"))
+                      or (isinstance(n, ast.Attribute) and n.attr in ("_fp_powers", "_underlying"))
+                      or (isinstance(n, ast.Call) and isinstance(n.func, ast.Name) and n.func.id == "len"))
+                if not ok:
+                    raise self.bad(node, f"test of the _ensure_fp_powers() guard reads something else: {ast.unparse(node.test)}")
+            self.notes.append(f"{Path(self.file).name}:{node.lineno} {self.fname}: ASSUMPTION: "
+                              f"`if {ast.unparse(node.test)}: self._ensure_fp_powers()` skipped (it only maintains the "
+                              f"derived cache self._fp_powers; checked: _ensure_fp_powers assigns no other attribute)")
+            return ast.copy_location(ast.Pass(), node)
+        return self.generic_visit(node)
+
+    def visit_Return(self, node):
+        if node.value is None:
+            raise self.bad(node, "bare return")
+        if self.in_table and ast.unparse(node.value) == "super().fingerprint()":
+            self._in_return = True        # the call updates self._fp itself: its (state, value) pair IS the result
+            v = self.visit(node.value)
+            self._in_return = False
+            return ast.copy_location(ast.Return(value=v), node)
+        v = self.visit(node.value)
+        return ast.copy_location(ast.Return(value=ast.Tuple(elts=[ast.Name(id="self__fp", ctx=ast.Load()), v],
+                                                            ctx=ast.Load())), node)
+
+
+def _method(file, tree, cls, name):
+    cs = [n for n in tree.body if isinstance(n, ast.ClassDef) and n.name == cls]
+    if len(cs) != 1:
+        raise TranslationError(file, 0, f"class {cls}: found {len(cs)} definitions")
+    fs = [n for n in ast.walk(cs[0]) if isinstance(n, (ast.FunctionDef, ast.AsyncFunctionDef)) and n.name == name]
+    if len(fs) != 1 or fs[0] not in cs[0].body or not isinstance(fs[0], ast.FunctionDef) or fs[0].decorator_list:
+        raise TranslationError(file, 0, f"method {cls}.{name}: found {len(fs)} plain definitions")
+    a = fs[0].args
+    if [x.arg for x in a.args] != ["self"] or a.vararg or a.kwarg or a.kwonlyargs or a.posonlyargs:
+        raise TranslationError(file, fs[0].lineno, f"{cls}.{name}: parameters other than (self)")
+    for n in ast.walk(tree):
+        if isinstance(n, ast.Attribute) and n.attr == name and isinstance(n.ctx, (ast.Store, ast.Del)):
+            raise TranslationError(file, n.lineno, f"{cls}.{name} is re-bound by an attribute assignment")
+    return cs[0], fs[0]
+
+
+def translate_fp_memo(vector_py: Path, table_py: Path):
+    notes, parts, lines = [], [], {}
+    vt = ast.parse(vector_py.read_text(), filename=str(vector_py))
+    tt = ast.parse(table_py.read_text(), filename=str(table_py))
+    vcls, vf = _method(vector_py, vt, "Vector", "fingerprint")
+    _, ens = _method(vector_py, vt, "Vector", "_ensure_fp_powers")
+    for n in ast.walk(ens):       # _ensure_fp_powers may only maintain self._fp_powers
+        if isinstance(n, ast.Attribute) and isinstance(n.ctx, (ast.Store, ast.Del)) and n.attr != "_fp_powers":
+            raise TranslationError(vector_py, n.lineno, f"_ensure_fp_powers assigns self.{n.attr}")
+        if isinstance(n, ast.Call) and not (isinstance(n.func, ast.Name) and n.func.id in ("len", "range")):
+            raise TranslationError(vector_py, n.lineno, f"_ensure_fp_powers calls {ast.unparse(n.func)}")
+        if isinstance(n, (ast.Global, ast.Nonlocal, ast.Delete)):
+            raise TranslationError(vector_py, n.lineno, "_ensure_fp_powers: global/nonlocal/del")
+    tcls, tf = _method(table_py, tt, "Table", "fingerprint")
+    if [ast.unparse(b) for b in tcls.bases] != ["Vector"] or tcls.keywords:
+        raise TranslationError(table_py, tcls.lineno, "class Table must have the single base Vector")
+    imp = [n for n in tt.body if isinstance(n, ast.ImportFrom) and any((al.asname or al.name) == "Vector" for al in n.names)]
+    if len(imp) != 1 or imp[0].module != "vector" or imp[0].level != 1:
+        raise TranslationError(table_py, imp[0].lineno if imp else 0, "`Vector` must be bound by `from .vector import Vector`")
+    for nm in ("_compute_fingerprint_full", "_hash_element", "_FP_P", "_FP_B", "_ensure_fp_powers"):
+        for n in ast.walk(tt):
+            if ((isinstance(n, (ast.FunctionDef, ast.AsyncFunctionDef)) and n.name == nm)
+                    or (isinstance(n, ast.Name) and n.id == nm and isinstance(n.ctx, ast.Store))
+                    or (isinstance(n, ast.Attribute) and n.attr == nm and isinstance(n.ctx, ast.Store))):
+                raise TranslationError(table_py, n.lineno, f"table.py overrides / re-binds {nm}")
+    ret = ("ofp", "ofp")
+    kv = Kernel("fingerprint", "vector_fingerprint", ["ofp", "Z"], ret, cls="Vector")
+    kt = Kernel("fingerprint", "table_fingerprint", ["ofp", "Z"], ret, cls="Table")
+    for file, f, k, in_table in ((vector_py, vf, kv, False), (table_py, tf, kt, True)):
+        import copy
+        g = _MemoRewrite(file, f"{k.cls}.fingerprint", notes, in_table).visit(copy.deepcopy(f))
+        ast.fix_missing_locations(g)
+        g.args.args = [ast.arg(arg="self__fp"), ast.arg(arg="fp_full")]
+        k.node = g
+        text, _, _ = translate_function(file, k, {(None, "vector_fingerprint"): kv} if in_table else {}, notes)
+        parts.append(text.replace(f"{k.cls}.fingerprint *)", f"{k.cls}.fingerprint as (self._fp before, fingerprint of the "
+                                  f"current contents) -> (self._fp after, returned value) *)", 1))
+        lines[k.coq] = [f.lineno, f.end_lineno]
+    return "\n".join(parts), {"lines": lines, "notes": notes}
+
+
+# ---- the operator dispatch of the arithmetic dunders (vector.py, table.py) ----------------------------------
+
+BOPS = [("add", "Add", ast.Add, "+"), ("sub", "Sub", ast.Sub, "-"), ("mul", "Mul", ast.Mult, "*"),
+        ("truediv", "TrueDiv", ast.Div, "/"), ("floordiv", "FloorDiv", ast.FloorDiv, "//"),
+        ("mod", "Mod", ast.Mod, "%"), ("pow", "Pow", ast.Pow, "**")]
+DISPATCH = [("Vector", "vector.py", "_elementwise_operation", "vector_dispatch"),
+            ("Table", "table.py", "_table_elementwise_operation", "table_dispatch")]
+
+
+def _coq_string(file, node, v):
+    if not (isinstance(v, str) and all(32 <= ord(c) < 127 and c != '"' for c in v)):
+        raise TranslationError(file, node.lineno, f"label {v!r} is not a plain printable ASCII string")
+    return f'"{v}"'
+
+
+def _binop_of(file, fn, where, args, body):
+    """`<p> OP <q>` over exactly the two parameters -> (Coq bop, swapped)"""
+    if not (isinstance(body, ast.BinOp) and isinstance(body.left, ast.Name) and isinstance(body.right, ast.Name)):
+        raise TranslationError(file, where.lineno, f"{fn}: body is not `<param> OP <param>`")
+    a = args
+    if (a.vararg or a.kwarg or a.kwonlyargs or a.posonlyargs or a.defaults or a.kw_defaults or len(a.args) != 2
+            or a.args[0].arg == a.args[1].arg):
+        raise TranslationError(file, where.lineno, f"{fn}: needs exactly two plain parameters")
+    p, q = a.args[0].arg, a.args[1].arg
+    ops = [b for b in BOPS if isinstance(body.op, b[2])]
+    if not ops or {body.left.id, body.right.id} != {p, q}:
+        raise TranslationError(file, where.lineno, f"{fn}: body `{ast.unparse(body)}` is not one of + - * / // % ** "
+                                                   f"over its two parameters")
+    return ops[0][1], body.left.id == q        # f(p, q) = q OP p  ->  swapped
+
+
+def translate_dispatch(repo_src: Path):
+    """Which operator and which operand order each arithmetic dunder of Vector / Table hands to
+    _elementwise_operation / _table_elementwise_operation, read off the one-line method bodies."""
+    notes, parts, lines = [], [], {}
+    for cls, fname, via, coqname in DISPATCH:
+        file = repo_src / fname
+        try:
+            tree = ast.parse(file.read_text(), filename=str(file))
+        except (OSError, SyntaxError) as e:
+            raise TranslationError(file, getattr(e, "lineno", 0) or 0, f"cannot parse: {e}")
+        cs = [n for n in tree.body if isinstance(n, ast.ClassDef) and n.name == cls]
+        if len(cs) != 1:
+            raise TranslationError(file, 0, f"class {cls}: found {len(cs)} definitions")
+        ops_imp = [n for n in tree.body for al in getattr(n, "names", []) if isinstance(n, (ast.Import, ast.ImportFrom))
+                   and (al.asname or al.name).split(".")[0] == "operator"]
+        if len(ops_imp) != 1 or ast.unparse(ops_imp[0]) != "import operator":
+            raise TranslationError(file, 0, "`operator` must be bound exactly once, by `import operator`")
+        for n in ast.walk(tree):
+            if isinstance(n, ast.Name) and n.id == "operator" and isinstance(n.ctx, (ast.Store, ast.Del)):
+                raise TranslationError(file, n.lineno, "`operator` is re-bound")
+            if isinstance(n, ast.Attribute) and isinstance(n.ctx, (ast.Store, ast.Del)) and (
+                    n.attr == via or (n.attr.startswith("__") and n.attr.strip("_").lstrip("r") in [b[0] for b in BOPS])):
+                raise TranslationError(file, n.lineno, f".{n.attr} is re-bound by an attribute assignment")
+        vias = [n for n in ast.walk(cs[0]) if isinstance(n, (ast.FunctionDef, ast.AsyncFunctionDef)) and n.name == via]
+        if len(vias) != 1 or vias[0] not in cs[0].body:
+            raise TranslationError(file, 0, f"{cls}.{via}: found {len(vias)} definitions")
+        vp = [a.arg for a in vias[0].args.args]
+        if len(vp) != 5 or vias[0].args.vararg or vias[0].args.kwarg or vias[0].args.kwonlyargs or vias[0].args.defaults:
+            raise TranslationError(file, vias[0].lineno, f"{cls}.{via}: expected (self, other, op_func, op_name, op_symbol)")
+        rows = []
+        for refl in (False, True):
+            for pyop, coqop, _, _ in BOPS:
+                dname = f"__{'r' if refl else ''}{pyop}__"
+                d = f"({'Refl' if refl else 'Plain'} {coqop})"
+                fs = [n for n in ast.walk(cs[0]) if isinstance(n, (ast.FunctionDef, ast.AsyncFunctionDef)) and n.name == dname]
+                binds = [n for n in ast.walk(cs[0]) if isinstance(n, ast.Name) and n.id == dname and isinstance(n.ctx, ast.Store)]
+                if len(fs) != 1 or fs[0] not in cs[0].body or not isinstance(fs[0], ast.FunctionDef) or binds:
+                    raise TranslationError(file, 0, f"{cls}.{dname}: found {len(fs)} definitions / {len(binds)} assignments")
+                f = fs[0]
+                a = f.args
+                if (f.decorator_list or a.vararg or a.kwarg or a.kwonlyargs or a.posonlyargs or a.defaults
+                        or len(a.args) != 2):
+                    raise TranslationError(file, f.lineno, f"{cls}.{dname}: expected plain (self, other)")
+                me, other = a.args[0].arg, a.args[1].arg
+                body = [st for st in f.body if not is_docstring(st)]
+                route = None
+                if len(body) == 1 and isinstance(body[0], ast.Return) and isinstance(body[0].value, ast.Call):
+                    c = body[0].value
+                    fn = c.func
+                    recv = isinstance(fn, ast.Attribute) and isinstance(fn.value, ast.Name) and fn.value.id == me
+                    plain = not c.keywords and not any(isinstance(x, ast.Starred) for x in c.args)
+                    if recv and plain and fn.attr == via and len(c.args) == 4 and isinstance(c.args[0], ast.Name) \
+                            and c.args[0].id == other and all(isinstance(x, ast.Constant) for x in c.args[2:]):
+                        g = c.args[1]
+                        if isinstance(g, ast.Attribute) and isinstance(g.value, ast.Name) and g.value.id == "operator" \
+                                and g.attr in [b[0] for b in BOPS] and "operator" not in (me, other):
+                            o, sw = [b[1] for b in BOPS if b[0] == g.attr][0], False      # operator.sub(a, b) = a - b
+                        elif isinstance(g, ast.Lambda):
+                            o, sw = _binop_of(file, f"lambda in {cls}.{dname}", g, g.args, g.body)
+                        elif isinstance(g, ast.Name) and g.id not in (me, other):
+                            hs = [n for n in ast.walk(tree) if isinstance(n, (ast.FunctionDef, ast.AsyncFunctionDef, ast.ClassDef))
+                                  and n.name == g.id]
+                            st = [n for n in ast.walk(tree) if isinstance(n, ast.Name) and n.id == g.id
+                                  and isinstance(n.ctx, (ast.Store, ast.Del))]
+                            if len(hs) != 1 or hs[0] not in tree.body or not isinstance(hs[0], ast.FunctionDef) or st \
+                                    or hs[0].decorator_list:
+                                raise TranslationError(file, c.lineno, f"{cls}.{dname}: helper {g.id} must be ONE plain "
+                                                                       f"module-level function (found {len(hs)} defs, {len(st)} assignments)")
+                            hb = [x for x in hs[0].body if not is_docstring(x)]
+                            if len(hb) != 1 or not isinstance(hb[0], ast.Return) or hb[0].value is None:
+                                raise TranslationError(file, hs[0].lineno, f"{g.id}: body is not a single return")
+                            o, sw = _binop_of(file, g.id, hs[0], hs[0].args, hb[0].value)
+                        else:
+                            raise TranslationError(file, c.lineno, f"{cls}.{dname}: op_func `{ast.unparse(g)}` is not "
+                                                                   f"operator.<op>, a module-level helper or a lambda")
+                        route = (f"GVia {o} {'true' if sw else 'false'} {_coq_string(file, c, c.args[2].value)} "
+                                 f"{_coq_string(file, c, c.args[3].value)}")
+                    elif recv and plain and len(c.args) == 1 and isinstance(c.args[0], ast.Name) and c.args[0].id == other:
+                        tgt = [(r2, b) for r2 in (False, True) for b in BOPS if fn.attr == f"__{'r' if r2 else ''}{b[0]}__"]
+                        if tgt:
+                            route = f"GDelegate ({'Refl' if tgt[0][0] else 'Plain'} {tgt[0][1][1]})"
+                if route is None:
+                    route = "GOwnBody"
+                    notes.append(f"{fname}:{f.lineno} {cls}.{dname}: has its own body (lines {f.lineno}-{f.end_lineno}), NOT translated")
+                rows.append(f"    ({d}, {route})  (* {fname}:{f.lineno} {dname} *)")
+                lines[f"{coqname}.{dname}"] = [f.lineno, f.end_lineno]
+        body = ";\n".join([r.split("  (* ")[0] for r in rows])
+        cmts = "\n".join("   " + r.split("  (* ")[1].replace(" *)", "") for r in rows)
+        parts.append(f"(* {fname}: class {cls}; rows (source lines):\n{cmts} *)\n"
+                     f"Definition {coqname} : list (dunder * groute) :=\n  [\n{body} ].\n")
+    head = ("(* GenDispatch.v — GENERATED by harness/translate.py from vector.py and table.py; do not edit.\n"
+            "   one row per arithmetic dunder: GVia o swapped name symbol  =  return self._elementwise_operation(other, f, name,\n"
+            "   symbol) with f(a, b) = a <o> b (swapped = false) or b <o> a (swapped = true); see Base/GenPrelude.v.\n"
+            "   NOT translated: how _elementwise_operation applies op_func to (element of self, element of other) — that is\n"
+            "   Model/Elementwise.elementwise_operation, tied by the correspondence check of C05.\n"
+            + "".join(f"   {n}\n" for n in notes).replace("*)", "* )") + "*)\n"
+            "From Coq Require Import List String.\nFrom Serif Require Import Model.Elementwise Base.GenPrelude.\n"
+            "Import ListNotations.\nOpen Scope string_scope.\n\n")
+    return head + "\n".join(parts), {"lines": lines, "notes": notes}
+
+
+IMPORTS_CSV = ("From Coq Require Import List Bool.\nFrom Serif Require Import Base.PyVal Base.GenPrelude.\n")
 IMPORTS_FP = ("From Coq Require Import List Bool ZArith.\n"
               "From Serif Require Import Base.PyVal Base.GenPrelude.\nLocal Open Scope Z_scope.\n")
 IMPORTS_NAMES = ("From Coq Require Import List Bool String.\n"
@@ -1153,29 +1450,59 @@ def fresh(kernels):
             for k in kernels]
 
 
+def _gen_fingerprint(repo_src):
+    text, meta = translate_file(repo_src / "vector.py", fresh(FP_KERNELS), "GenFingerprint", IMPORTS_FP, (), FP_CONSTS, True)
+    text2, meta2 = translate_fp_memo(repo_src / "vector.py", repo_src / "table.py")
+    text += ("\n(* ---- the memo protocol of fingerprint() (vector.py, table.py) ---- *)\n" +
+             "".join("(* " + n.replace("*)", "* )") + " *)\n" for n in meta2["notes"]) + text2)
+    meta["lines"].update(meta2["lines"])
+    meta["notes"] += meta2["notes"]
+    return text, meta
+
+
+# generated file -> how it is produced from the package directory
+GENERATORS = {
+    "GenTyping.v": lambda src: translate_file(src / "typing.py", fresh(TYPING_KERNELS), "GenTyping", IMPORTS_TYPING,
+                                              ("date", "datetime")),
+    "GenSlice.v": lambda src: translate_file(src / "typeutils.py", fresh(SLICE_KERNELS), "GenSlice", IMPORTS_SLICE),
+    "GenNames.v": lambda src: translate_file(src / "table.py", fresh(NAMES_KERNELS), "GenNames", IMPORTS_NAMES),
+    "GenJoin.v": lambda src: translate_joins(src / "table.py"),
+    "GenFingerprint.v": _gen_fingerprint,
+    "GenDispatch.v": translate_dispatch,
+    "GenCsv.v": lambda src: translate_file(src / "csv.py", fresh(CSV_KERNELS), "GenCsv", IMPORTS_CSV),
+}
+
+
+def translate_each(repo_src: Path, outdir: Path, only=None):
+    """Every generated file independently: -> (info, {generated file: TranslationError}).  A file whose source does
+    not translate is simply not written (its proof scripts are then not checkable: fail closed)."""
+    repo_src, outdir = Path(repo_src), Path(outdir)
+    outdir.mkdir(parents=True, exist_ok=True)
+    info, failed = {"files": {}, "functions": {}, "notes": []}, {}
+    for gf, make in GENERATORS.items():
+        if only is not None and gf not in only:
+            continue
+        try:
+            text, meta = make(repo_src)
+        except TranslationError as e:
+            failed[gf] = e
+            continue
+        except (OSError, SyntaxError, RecursionError) as e:
+            failed[gf] = TranslationError(repo_src, getattr(e, "lineno", 0) or 0, f"{type(e).__name__}: {e}")
+            continue
+        (outdir / gf).write_text(text)
+        info["files"][gf] = hashlib.sha1(text.encode()).hexdigest()
+        info["functions"][gf[:-2]] = meta["lines"]
+        info["notes"] += meta["notes"]
+    return info, failed
+
+
 def translate(repo_src: Path, outdir: Path) -> dict:
     """Translate the kernels of the checkout whose package directory is `repo_src`
     (…/src/serif) into outdir/Gen*.v.  Raises TranslationError; never guesses."""
-    repo_src, outdir = Path(repo_src), Path(outdir)
-    outdir.mkdir(parents=True, exist_ok=True)
-    jobs = [
-        ("GenTyping", repo_src / "typing.py", fresh(TYPING_KERNELS), IMPORTS_TYPING, ("date", "datetime")),
-        ("GenSlice", repo_src / "typeutils.py", fresh(SLICE_KERNELS), IMPORTS_SLICE, ()),
-        ("GenNames", repo_src / "table.py", fresh(NAMES_KERNELS), IMPORTS_NAMES, ()),
-        ("GenFingerprint", repo_src / "vector.py", fresh(FP_KERNELS), IMPORTS_FP, (), FP_CONSTS, True),
-    ]
-    info = {"files": {}, "functions": {}, "notes": []}
-    for mod, py, kernels, imports, need, *more in jobs:
-        text, meta = translate_file(py, kernels, mod, imports, need, *more)
-        (outdir / f"{mod}.v").write_text(text)
-        info["files"][f"{mod}.v"] = hashlib.sha1(text.encode()).hexdigest()
-        info["functions"][mod] = meta["lines"]
-        info["notes"] += meta["notes"]
-    text, meta = translate_joins(repo_src / "table.py")
-    (outdir / "GenJoin.v").write_text(text)
-    info["files"]["GenJoin.v"] = hashlib.sha1(text.encode()).hexdigest()
-    info["functions"]["GenJoin"] = meta["lines"]
-    info["notes"] += meta["notes"]
+    info, failed = translate_each(repo_src, outdir)
+    for e in failed.values():
+        raise e
     return info
 
 
@@ -1186,8 +1513,10 @@ SCRIPTS = [            # (committed proof script, generated modules it needs)
     ("EqSlice.v", ["GenSlice.v"]),
     ("EqNames.v", ["GenNames.v"]),
     ("EqJoin.v", ["GenJoin.v"]),
+    ("EqFingerprint.v", ["GenFingerprint.v"]),
+    ("EqDispatch.v", ["GenDispatch.v"]),
 ]
-NEEDED_VO = ["Base/GenPrelude", "Props/C04", "Props/C07", "Props/C18", "Props/C11"]
+NEEDED_VO = ["Base/GenPrelude", "Props/C04", "Props/C07", "Props/C18", "Props/C11", "Props/C16", "Props/C05"]
 BUDGET = float(__import__("os").environ.get("SERIF_TRANSLATE_BUDGET", "28"))   # seconds for one run()
 
 HARD_TIMEOUT = 120.0   # seconds for one coqc that MUST run (generated file, first pass over a proof script)
@@ -1315,9 +1644,11 @@ def _check_script(src: Path, dst: Path, gen: Path, deadline: float):
     return assum, errors, broken
 
 
-def run(workdir: Path, repo: Path | None = None) -> dict:
+def run(workdir: Path, repo: Path | None = None, scripts=None) -> dict:
     """Translate `repo`/src/serif, compile the generated files and the committed proof scripts
-    against them.  Writes only under `workdir`."""
+    against them.  Writes only under `workdir`.  `scripts` (e.g. ["EqFingerprint.v"]) restricts the run to those
+    proof scripts and the generated files they need (default: all); the kernels of different generated files are
+    independent, so an untranslatable source only fails the scripts that depend on it."""
     from harness import core
     t0 = time.time()
     deadline = t0 + BUDGET
@@ -1329,21 +1660,26 @@ def run(workdir: Path, repo: Path | None = None) -> dict:
         d.mkdir(parents=True)
     proofdir = core.COQ / "gen_proofs"
     obs = script_obligations(proofdir)
-    res = {"ok": False, "repo": str(repo), "obligations": [n for s, _ in SCRIPTS for n in obs[s]], "discharged": [],
+    SEL = [(s, d) for s, d in SCRIPTS if scripts is None or s in scripts]
+    if scripts is not None and len(SEL) != len(set(scripts)):
+        raise ValueError(f"unknown proof script in {scripts}; known: {[s for s, _ in SCRIPTS]}")
+    res = {"ok": False, "repo": str(repo), "scripts": [s for s, _ in SEL],
+           "obligations": [n for s, _ in SEL for n in obs[s]], "discharged": [],
            "broken": [], "errors": [], "generated": {}, "assumptions": {}, "notes": [], "abstraction_assumptions": ASSUMPTIONS,
-           "proof_scripts": {s: hashlib.sha1((proofdir / s).read_bytes()).hexdigest() for s, _ in SCRIPTS}}
+           "proof_scripts": {s: hashlib.sha1((proofdir / s).read_bytes()).hexdigest() for s, _ in SEL},
+           "by_script": {}, "translation_errors": {}}
 
     def done():
         res["seconds"] = round(time.time() - t0, 2)
         res["ok"] = not res["errors"] and sorted(res["discharged"]) == sorted(res["obligations"])
         return res
 
-    try:
-        info = translate(repo / "src" / "serif", gen)
-    except TranslationError as e:
-        res["errors"].append(f"TranslationError: {e}")
-        res["translation_error"] = {"file": e.file, "lineno": e.lineno, "what": e.what}
-        return done()
+    info, failed = translate_each(repo / "src" / "serif", gen, only={g for _, d in SEL for g in d})
+    for gf, e in failed.items():
+        res["errors"].append(f"TranslationError ({gf}): {e}")
+        res["translation_errors"][gf] = {"file": e.file, "lineno": e.lineno, "what": e.what}
+    if failed:
+        res["translation_error"] = next(iter(res["translation_errors"].values()))
     res["generated"], res["functions"] = info["files"], info["functions"]
     res["notes"] = list(dict.fromkeys(info["notes"]))
     why = ensure_theories()
@@ -1351,16 +1687,18 @@ def run(workdir: Path, repo: Path | None = None) -> dict:
         res["errors"].append(why)
         return done()
     with core.coq_read_lock():
-        with ThreadPoolExecutor(max_workers=len(res["generated"])) as ex:
+        with ThreadPoolExecutor(max_workers=max(1, len(res["generated"]))) as ex:
             rs = dict(zip(res["generated"], ex.map(lambda f: _coqc(gen / f, gen, HARD_TIMEOUT), res["generated"])))
         genbad = {f for f, r in rs.items() if r.returncode != 0}
         for f in sorted(genbad):
             res["errors"].append(f"generated {f} does not compile: " + " ".join((rs[f].stderr or rs[f].stdout).split())[:400])
-        todo = [(s, deps) for s, deps in SCRIPTS if not (set(deps) & genbad)]
+        genbad |= set(failed)
+        todo = [(s, deps) for s, deps in SEL if not (set(deps) & genbad)]
         with ThreadPoolExecutor(max_workers=max(1, len(todo))) as ex:
             outs = list(ex.map(lambda sd: _check_script(proofdir / sd[0], scratch / sd[0], gen, deadline), todo))
     for (s, _), (assum, errors, broken) in zip(todo, outs):
         res["errors"] += errors
+        res["by_script"][s] = {"errors": errors, "broken": [n for n in obs[s] if n in broken]}
         res["broken"] += [n for n in obs[s] if n in broken]
         for n in obs[s]:
             a = assum.get(n)
@@ -1376,10 +1714,14 @@ def run(workdir: Path, repo: Path | None = None) -> dict:
                     res["discharged"].append(n)
                 elif not errors:
                     res["errors"].append(f"{s}: {n} is not closed: {' '.join(a.split())[:200]}")
-    for s, deps in SCRIPTS:
+    for s, deps in SEL:
         if set(deps) & genbad:
+            why = "; ".join(str(failed[g]) if g in failed else f"{g} does not compile" for g in deps if g in genbad)
+            res["by_script"][s] = {"errors": [why], "broken": []}
             for n in obs[s]:
-                res["assumptions"][n] = "NOT CHECKED (generated file does not compile)"
+                res["assumptions"][n] = f"NOT CHECKED ({why})"[:300]
+    for s, _ in SEL:
+        res["by_script"][s]["ok"] = not res["by_script"][s]["errors"] and all(n in res["discharged"] for n in obs[s])
     return done()
 
 
@@ -1389,13 +1731,14 @@ def main(argv=None):
     ap.add_argument("--repo", type=Path, default=None, help="checkout to translate (default: $SERIF_REPO or /repo)")
     ap.add_argument("--workdir", type=Path, default=None, help="scratch directory (default: work/translate-<pid>, removed afterwards)")
     ap.add_argument("--keep", action="store_true", help="keep the scratch directory")
+    ap.add_argument("--scripts", nargs="+", default=None, help="only these proof scripts (e.g. EqFingerprint.v)")
     ap.add_argument("--brief", action="store_true", help="print only ok / errors / undischarged obligations")
     ap.add_argument("--line", metavar="LABEL", default=None, help="print a one-line verdict (plus the errors) instead of JSON")
     a = ap.parse_args(argv)
     import os
     wd = a.workdir or (core.WORK / f"translate-{os.getpid()}")
     try:
-        res = run(wd, a.repo)
+        res = run(wd, a.repo, a.scripts)
     finally:
         if a.workdir is None and not a.keep:
             shutil.rmtree(wd, ignore_errors=True)
